@@ -12,7 +12,7 @@ Ltac Zify.zify_post_hook ::= Z.div_mod_to_equations.
    A change of these counts means the code has a site the model does not know. *)
 Example census_keyset_rs :
   (CENSUS_UNWRAP, CENSUS_EXPECT, CENSUS_KEYS_INDEX, CENSUS_OUTPUT_INDEX, CENSUS_COOKIE_INDEX,
-   CENSUS_BUF_INDEX, CENSUS_PLUS_TIME) = (12, 2, 2, 3, 5, 6, 0).
+   CENSUS_BUF_INDEX) = (12, 2, 2, 3, 5, 6).
 Proof. reflexivity. Qed.
 Example layout_constants :
   (COOKIE_ID_LEN, COOKIE_LEN_LEN, COOKIE_NONCE_LEN, ENCODE_TAG_LEN, ENCODE_NONCE_LEN, FILE_HEADER_LEN, FILE_KEY_LEN)
@@ -309,6 +309,12 @@ Qed.
 Lemma new_keyset_newest k : newest (new_keyset k).
 Proof. unfold newest, KeysOk, new_keyset, lenZ. cbn. lia. Qed.
 
+Lemma nth_key_nth_error l i : 0 <= i -> nth_key l i = nth_error l (Z.to_nat i).
+Proof.
+  intros H. unfold nth_key. destruct ((0 <=? i) && (i <? lenZ l)) eqn:E; [reflexivity|].
+  symmetry. apply nth_error_None. unfold lenZ in *. lia.
+Qed.
+
 (* ---------------------------------------------------------------- encode / decode *)
 
 Section AEAD.
@@ -328,7 +334,7 @@ Section AEAD.
             ++ be_enc 2 (wrap 16 (lenZ (enc k nonce [] (plaintext c)))) ++ nonce ++ enc k nonce [] (plaintext c)).
   Proof using dec enc.
     clear dec_enc dec_sound enc_len dec_bytes key_sep.
-    intros [Hp _]. unfold encode_cookie.
+    intros [Hp _]. unfold encode_cookie. rewrite nth_key_nth_error by lia.
     destruct (nth_error (keys ks) (Z.to_nat (primary ks))) as [k|] eqn:E.
     - exists k. split; reflexivity.
     - apply nth_error_None in E. unfold lenZ in Hp. lia.
@@ -339,7 +345,7 @@ Section AEAD.
     ((exists s, encode_cookie enc ks c nonce = Panic s) <-> lenZ (keys ks) <= primary ks).
   Proof using dec enc.
     clear dec_enc dec_sound enc_len dec_bytes key_sep.
-    intros H0. unfold encode_cookie.
+    intros H0. unfold encode_cookie. rewrite nth_key_nth_error by lia.
     destruct (nth_error (keys ks) (Z.to_nat (primary ks))) as [k|] eqn:E.
     - split; [intros [s Hs]; discriminate|]. intros H.
       assert (nth_error (keys ks) (Z.to_nat (primary ks)) <> None) by congruence.
@@ -352,7 +358,7 @@ Section AEAD.
     clear dec_enc dec_sound enc_len dec_bytes key_sep.
     unfold decode_cookie.
     destruct (lenZ b <? hdr_len); auto.
-    destruct (nth_error (keys ks) _); auto.
+    destruct (nth_key (keys ks) _); auto.
     destruct (lenZ (skipn (Z.to_nat hdr_len) b) <? ck_len b); auto.
     destruct (dec _ _ _ _); auto. apply parse_plaintext_err.
   Qed.
@@ -378,7 +384,8 @@ Section AEAD.
     assert (Hl : ck_len b = lenZ ct).
     { rewrite Fl, be_dec_enc. unfold wrap. change (256 ^ Z.of_nat 2) with 65536. change (2 ^ 16) with 65536.
       rewrite Z.mod_mod by lia. apply Z.mod_small. lia. }
-    unfold decode_cookie. unfold ck_ct. rewrite Fr, Hl, Fn, Fi, Flen.
+    unfold decode_cookie. rewrite nth_key_nth_error by apply (proj1 (wrap_range _)).
+    unfold ck_ct. rewrite Fr, Hl, Fn, Fi, Flen.
     replace (hdr_len + lenZ ct <? hdr_len) with false by (symmetry; apply Z.ltb_ge; lia).
     rewrite be_dec_enc. change (256 ^ Z.of_nat 4) with (2 ^ 32). rewrite (Z.mod_small id) by assumption.
     destruct (nth_error (keys ks') _) as [k'|]; [|reflexivity].
@@ -523,7 +530,7 @@ Section AEAD.
       ck_ct b = enc k (ck_nonce b) [] (plaintext c) /\ wf_cookie c.
   Proof using dec dec_sound dec_bytes.
     clear dec_enc enc_len key_sep.
-    unfold decode_cookie.
+    unfold decode_cookie. rewrite nth_key_nth_error by apply (proj1 (wrap_range _)).
     destruct (lenZ b <? hdr_len) eqn:E0; [discriminate|]. apply Z.ltb_ge in E0.
     destruct (nth_error (keys ks) _) as [k|] eqn:Ek; [|discriminate].
     destruct (lenZ (skipn (Z.to_nat hdr_len) b) <? ck_len b) eqn:E1; [discriminate|]. apply Z.ltb_ge in E1.
